@@ -105,6 +105,15 @@ def check_program(item):
     src, argv, label = item["src"], item["argv"], item["label"]
     res = dict(label=label, argv=argv, status="ok", states=0, trans=0, forced=0, problems=[], confirmed=0, shapes=set())
     acc = loader.compile_source(src, argv, codegen=True)
+    if acc.kind == "diagnosed" and item.get("ast") is not None and not any(a.startswith("-O") for a in argv):
+        # rejected as written: the rejection (which is what keeps a non-consuming loop out) must not depend on the optimisation level
+        for lv in (["-O0"], ["-O3"]):
+            other = loader.compile_source(src, argv + lv, codegen=True)
+            if other.kind == "accepted":
+                res["problems"].append(dict(kind="verdict-level", what="rejected at the default level (%s) but accepted with %s" % (acc.detail, lv[0]), input="", state=-1, ctx={}))
+                acc, argv = other, argv + lv
+                res["argv"] = argv
+                break
     if acc.kind != "accepted":
         res["status"] = acc.kind
         res["shapes"] = []
